@@ -39,6 +39,7 @@ import (
 	"github.com/pkg/diff"
 	"github.com/uber-go/gopatch/internal/astdiff"
 	"github.com/uber-go/gopatch/internal/engine"
+	"github.com/uber-go/gopatch/internal/goast"
 	"go.uber.org/multierr"
 	"golang.org/x/tools/imports"
 )
@@ -426,6 +427,7 @@ func (r *patchRunner) Apply(filename string, f *ast.File) (fout *ast.File, comme
 
 			snap = snap.Diff(fout, cl)
 			cleanupFilePos(r.fset.File(fout.Pos()), cl, fout.Comments)
+			goast.DropEmptyComments(fout)
 		}
 	}
 
